@@ -71,6 +71,12 @@ def _emit_fn(gen, root, fn, canary_false=False):
                 raise X.ExtractError('ANCHOR-LOST body_subst in %s::%s: %r (%d)' % (fn.file, fn.name, a, body.count(a)))
             body = body.replace(a, X._pad(b.replace('\n', X.SEP), a))
             fired.append('SUBST %r -> %r' % (a[:50], b[:50]))
+        for (rx, rep, why) in fn.body_resub:
+            n = len(re.findall(rx, body, flags=re.S))
+            if n != 1:
+                raise X.ExtractError('ANCHOR-LOST body_resub in %s::%s: /%s/ matches %d times' % (fn.file, fn.name, rx, n))
+            body = re.sub(rx, lambda m: X._pad(m.expand(rep), m.group(0)), body, count=1, flags=re.S)
+            fired.append('ABSTRACT /%s/ -> %s (%s)' % (rx[:60], rep[:60], why))
         body = X.apply_splices(body, fn.splices, fired, key)
     # ---- emit
     start = len(gen.lines) + 1
